@@ -125,7 +125,7 @@ macro_rules! rt_base {
 // length read back from the heap loses its concrete header byte (the solver then walks all 11 type
 // parsers incl. the Byron CBOR decoder: no verdict in 600 s). So the round trip is decided in two legs
 // that meet in a hand-laid expected encoding E (byte length of each varuint concrete per harness):
-//   (i)  a.to_vec() == E bytewise  (`_enc`, thorough only: symbolic-length Vecs, ~10 min each)
+//   (i)  a.to_vec() == E bytewise  (`_enc`, thorough only, four (type, id) pairs: symbolic-length Vecs, ~12 min each; the network id enters to_vec only through to_header(), which c18_q_header_hrp_symbolic_net decides for every id)
 //   (ii) Address::from_bytes(E) == a field-wise  (`_dec`)
 // ---------------------------------------------------------------------------------------------
 /// value range of a varuint of `l` bytes (l = 1, 2)
@@ -371,73 +371,43 @@ rt_base!(c18_t_rt_t3_n13, 3, 13);
 rt_base!(c18_t_rt_t3_n14, 3, 14);
 rt_base!(c18_t_rt_t3_n15, 3, 15);
 rt_ptr_dec!(c18_t_rt_t4_n0_l212_dec, 4, 0, 2, 1, 2);
-rt_ptr_enc!(c18_t_rt_t4_n0_l212_enc, 4, 0, 2, 1, 2);
 rt_ptr_dec!(c18_q_rt_t4_n1_l111_dec, 4, 1, 1, 1, 1);
 rt_ptr_enc!(c18_t_rt_t4_n1_l111_enc, 4, 1, 1, 1, 1);
 rt_ptr_dec!(c18_t_rt_t4_n1_l121_dec, 4, 1, 1, 2, 1);
-rt_ptr_enc!(c18_t_rt_t4_n1_l121_enc, 4, 1, 1, 2, 1);
 rt_ptr_dec!(c18_t_rt_t4_n2_l221_dec, 4, 2, 2, 2, 1);
-rt_ptr_enc!(c18_t_rt_t4_n2_l221_enc, 4, 2, 2, 2, 1);
 rt_ptr_dec!(c18_t_rt_t4_n3_l112_dec, 4, 3, 1, 1, 2);
-rt_ptr_enc!(c18_t_rt_t4_n3_l112_enc, 4, 3, 1, 1, 2);
 rt_ptr_dec!(c18_t_rt_t4_n4_l212_dec, 4, 4, 2, 1, 2);
-rt_ptr_enc!(c18_t_rt_t4_n4_l212_enc, 4, 4, 2, 1, 2);
 rt_ptr_dec!(c18_t_rt_t4_n5_l121_dec, 4, 5, 1, 2, 1);
-rt_ptr_enc!(c18_t_rt_t4_n5_l121_enc, 4, 5, 1, 2, 1);
 rt_ptr_dec!(c18_t_rt_t4_n6_l221_dec, 4, 6, 2, 2, 1);
-rt_ptr_enc!(c18_t_rt_t4_n6_l221_enc, 4, 6, 2, 2, 1);
 rt_ptr_dec!(c18_t_rt_t4_n7_l112_dec, 4, 7, 1, 1, 2);
-rt_ptr_enc!(c18_t_rt_t4_n7_l112_enc, 4, 7, 1, 1, 2);
 rt_ptr_dec!(c18_t_rt_t4_n8_l212_dec, 4, 8, 2, 1, 2);
-rt_ptr_enc!(c18_t_rt_t4_n8_l212_enc, 4, 8, 2, 1, 2);
 rt_ptr_dec!(c18_t_rt_t4_n9_l121_dec, 4, 9, 1, 2, 1);
-rt_ptr_enc!(c18_t_rt_t4_n9_l121_enc, 4, 9, 1, 2, 1);
 rt_ptr_dec!(c18_t_rt_t4_n10_l221_dec, 4, 10, 2, 2, 1);
-rt_ptr_enc!(c18_t_rt_t4_n10_l221_enc, 4, 10, 2, 2, 1);
 rt_ptr_dec!(c18_t_rt_t4_n11_l112_dec, 4, 11, 1, 1, 2);
-rt_ptr_enc!(c18_t_rt_t4_n11_l112_enc, 4, 11, 1, 1, 2);
 rt_ptr_dec!(c18_t_rt_t4_n12_l212_dec, 4, 12, 2, 1, 2);
-rt_ptr_enc!(c18_t_rt_t4_n12_l212_enc, 4, 12, 2, 1, 2);
 rt_ptr_dec!(c18_t_rt_t4_n13_l121_dec, 4, 13, 1, 2, 1);
-rt_ptr_enc!(c18_t_rt_t4_n13_l121_enc, 4, 13, 1, 2, 1);
 rt_ptr_dec!(c18_t_rt_t4_n14_l221_dec, 4, 14, 2, 2, 1);
-rt_ptr_enc!(c18_t_rt_t4_n14_l221_enc, 4, 14, 2, 2, 1);
 rt_ptr_dec!(c18_t_rt_t4_n15_l112_dec, 4, 15, 1, 1, 2);
 rt_ptr_enc!(c18_t_rt_t4_n15_l112_enc, 4, 15, 1, 1, 2);
 rt_ptr_dec!(c18_t_rt_t5_n0_l212_dec, 5, 0, 2, 1, 2);
 rt_ptr_enc!(c18_t_rt_t5_n0_l212_enc, 5, 0, 2, 1, 2);
 rt_ptr_dec!(c18_t_rt_t5_n1_l121_dec, 5, 1, 1, 2, 1);
-rt_ptr_enc!(c18_t_rt_t5_n1_l121_enc, 5, 1, 1, 2, 1);
 rt_ptr_dec!(c18_t_rt_t5_n2_l221_dec, 5, 2, 2, 2, 1);
-rt_ptr_enc!(c18_t_rt_t5_n2_l221_enc, 5, 2, 2, 2, 1);
 rt_ptr_dec!(c18_t_rt_t5_n3_l112_dec, 5, 3, 1, 1, 2);
-rt_ptr_enc!(c18_t_rt_t5_n3_l112_enc, 5, 3, 1, 1, 2);
 rt_ptr_dec!(c18_t_rt_t5_n4_l212_dec, 5, 4, 2, 1, 2);
-rt_ptr_enc!(c18_t_rt_t5_n4_l212_enc, 5, 4, 2, 1, 2);
 rt_ptr_dec!(c18_t_rt_t5_n5_l121_dec, 5, 5, 1, 2, 1);
-rt_ptr_enc!(c18_t_rt_t5_n5_l121_enc, 5, 5, 1, 2, 1);
 rt_ptr_dec!(c18_t_rt_t5_n6_l221_dec, 5, 6, 2, 2, 1);
-rt_ptr_enc!(c18_t_rt_t5_n6_l221_enc, 5, 6, 2, 2, 1);
 rt_ptr_dec!(c18_t_rt_t5_n7_l112_dec, 5, 7, 1, 1, 2);
-rt_ptr_enc!(c18_t_rt_t5_n7_l112_enc, 5, 7, 1, 1, 2);
 rt_ptr_dec!(c18_t_rt_t5_n8_l212_dec, 5, 8, 2, 1, 2);
-rt_ptr_enc!(c18_t_rt_t5_n8_l212_enc, 5, 8, 2, 1, 2);
 rt_ptr_dec!(c18_t_rt_t5_n9_l121_dec, 5, 9, 1, 2, 1);
-rt_ptr_enc!(c18_t_rt_t5_n9_l121_enc, 5, 9, 1, 2, 1);
 rt_ptr_dec!(c18_t_rt_t5_n10_l221_dec, 5, 10, 2, 2, 1);
-rt_ptr_enc!(c18_t_rt_t5_n10_l221_enc, 5, 10, 2, 2, 1);
 rt_ptr_dec!(c18_t_rt_t5_n11_l112_dec, 5, 11, 1, 1, 2);
-rt_ptr_enc!(c18_t_rt_t5_n11_l112_enc, 5, 11, 1, 1, 2);
 rt_ptr_dec!(c18_t_rt_t5_n12_l212_dec, 5, 12, 2, 1, 2);
-rt_ptr_enc!(c18_t_rt_t5_n12_l212_enc, 5, 12, 2, 1, 2);
 rt_ptr_dec!(c18_t_rt_t5_n13_l121_dec, 5, 13, 1, 2, 1);
-rt_ptr_enc!(c18_t_rt_t5_n13_l121_enc, 5, 13, 1, 2, 1);
 rt_ptr_dec!(c18_t_rt_t5_n14_l221_dec, 5, 14, 2, 2, 1);
-rt_ptr_enc!(c18_t_rt_t5_n14_l221_enc, 5, 14, 2, 2, 1);
 rt_ptr_dec!(c18_q_rt_t5_n15_l212_dec, 5, 15, 2, 1, 2);
 rt_ptr_enc!(c18_t_rt_t5_n15_l212_enc, 5, 15, 2, 1, 2);
 rt_ptr_dec!(c18_t_rt_t5_n15_l112_dec, 5, 15, 1, 1, 2);
-rt_ptr_enc!(c18_t_rt_t5_n15_l112_enc, 5, 15, 1, 1, 2);
 rt_ent!(c18_t_rt_t6_n0, 6, 0);
 rt_ent!(c18_q_rt_t6_n1, 6, 1);
 rt_ent!(c18_t_rt_t6_n2, 6, 2);
